@@ -40,8 +40,8 @@ var substTable = map[string][]string{
 	// "multicast/util.go":            {"net"},
 	// "bytes/mirrored_buffer.go":     {"syscall", "os"},
 	// "bytes/util_linux.go":          {"syscall", "os"},
-	// "codec/websocket/stream.go":    {"sync"},
-	// "codec/websocket/util.go":      {"crypto/rand"},
+	"codec/websocket/stream.go":    {"sync"},
+	"codec/websocket/util.go":      {"crypto/rand"},
 	// "codec/websocket/frame.go":     {"sync"},
 	// "codec/websocket/rfc6455.go":   {"crypto/rand"},
 	// "timer.go":                     {"time"},
